@@ -1,4 +1,5 @@
 import Sympler.GridLemmas
+import Sympler.Geom
 
 /-!
 # C01 — the generated neighbour tables and the link list
@@ -37,6 +38,19 @@ theorem C01_gen_tables_ok :
     (∀ a ∈ [(-1 : Int), 0, 1], ∀ b ∈ [(-1 : Int), 0, 1], ∀ c ∈ [(-1 : Int), 0, 1],
       (a, b, c) ≠ (0, 0, 0) → (a, b, c) ∈ offsets) :=
   ⟨by decide, by decide, by decide, by decide, by decide, by decide, by decide⟩
+
+/-- **bridge** between the kernels regenerated from `addPair` / `cellDist` (cell.h, cell.cpp) and the definitions the
+general theorems of `Props/C01.lean` speak about (`Sympler.Geom`): the same functions, for all arguments.  A changed
+sign, operand or comparison in the C++ makes one of these three statements false. -/
+theorem C01_bridge_addPair (dir : Int) (cd r1 c1 r2 c2 : Rat) :
+    addPairComponent dir cd r1 c1 r2 c2 = Sympler.Geom.addPair1 dir cd r1 c1 r2 c2 := by
+  unfold addPairComponent Sympler.Geom.addPair1; grind
+
+theorem C01_bridge_cellDist (o : Int) (w : Rat) :
+    cellDistComponent o w w = Sympler.Geom.cellDist1 w o := by
+  unfold cellDistComponent Sympler.Geom.cellDist1; rfl
+
+theorem C01_bridge_keep (a c : Rat) : addPairKeeps a c = decide (a < c) := rfl
 
 /-- the check implies the static hypotheses of the C09 theorems -/
 theorem C01_static_checks_sound {cutoff : Rat} {box : V3 Rat} {per : V3 Bool}
